@@ -369,8 +369,17 @@ func fireTimer(t *Timer) {
 		}
 	}
 	s.mu.Unlock()
+	if t.Period > 0 {
+		if h := OnTick; h != nil {
+			h(t.Label)
+		}
+	}
 	t.fire(now)
 }
+
+// OnTick, when set, is told about every firing of a periodic virtual timer (ticker) before the
+// ticker's channel receives the tick. Harness worlds use it to place ticks in their event logs.
+var OnTick func(label string)
 
 // ---- quiescence ----
 
